@@ -13,11 +13,7 @@ func show(ops []bop) {
 }
 
 func TestSeqs(t *testing.T) {
-	show([]bop{{oNew, 0, kT}, {oDrop, 0, 0}, {oFire, 0, 0}})
-	show([]bop{{oNew, 0, kUFR}, {oNew, 1, kT}, {oEnter, 0, cCPU}, {oDrop, 0, 0}, {oFire, 0, 0}, {oGC, 0, 0}, {oLeave, 0, lKill}})
-	show([]bop{{oEnter, 0, cCPU}, {oNew, 0, kTspin}, {oNew, 1, kUFR}, {oLeave, 0, lRet}})
-	show([]bop{{oEnter, 0, cCPU}, {oNew, 0, kTres}, {oDrop, 0, 0}, {oFire, 0, 0}, {oGC, 0, 0}, {oLeave, 0, lErr}})
-	fmt.Println(renderLua([]bop{{oEnter, 0, cCPU}, {oNew, 0, kTres}, {oEnter, 0, cSoft}, {oDrop, 0, 0}, {oLeave, 0, lKill}, {oFire, 0, 0}, {oGC, 0, 0}, {oLeave, 0, lErr}, {oRemark, 0, 0}}))
+	show([]bop{{oEnter, 0, cCPU}, {oNew, 0, kUR}, {oEnter, 0, cCPU}, {oLeave, 0, lLoop}})
 }
 
 func TestGenCount(t *testing.T) {
@@ -25,5 +21,13 @@ func TestGenCount(t *testing.T) {
 		for _, f := range partBFamilies(tier) {
 			fmt.Println(tier, f.Name, f.Size)
 		}
+	}
+}
+
+func TestIO(t *testing.T) {
+	for _, c := range [][4]int{{0, 0, 0, 0}, {0, 1, 1, 0}, {2, 1, 1, 2}, {2, 2, 2, 1}, {0, 1, 5, 2}, {2, 0, 6, 0}, {1,1,4,0}} {
+		bad, sig, canon := runIO(c[0], c[1], c[2], c[3])
+		fmt.Println(c, bad, canon)
+		_ = sig
 	}
 }
